@@ -87,31 +87,58 @@ pub const CTAP2_STATUSES: [ctap2::Error; 55] = [
     ctap2::Error::VendorLast,
 ];
 
-pub const CTAP1_STATUSES: [ctap1::Error; 24] = [
-    ctap1::Error::ConditionsOfUseNotSatisfied,
-    ctap1::Error::IncorrectDataParameter,
-    ctap1::Error::WrongLength,
-    ctap1::Error::NotEnoughMemory,
-    ctap1::Error::SecurityStatusNotSatisfied,
-    ctap1::Error::UnspecifiedCheckingError,
+pub const CTAP1_STATUSES: [ctap1::Error; 51] = [
     ctap1::Error::Success,
-    ctap1::Error::MoreAvailable(0),
-    ctap1::Error::MoreAvailable(0xff),
     ctap1::Error::DataUnchangedWarning,
+    ctap1::Error::CorruptedData,
+    ctap1::Error::UnexpectedEof,
+    ctap1::Error::SelectFileDeactivated,
+    ctap1::Error::FileControlInfoBadlyFormatted,
+    ctap1::Error::SelectedFileInTerminationState,
+    ctap1::Error::NoInputDataFromSensor,
     ctap1::Error::VerificationFailed,
-    ctap1::Error::RemainingRetries(3),
+    ctap1::Error::FilledByLastWrite,
     ctap1::Error::UnspecifiedNonpersistentExecutionError,
+    ctap1::Error::ImmediateResponseRequired,
     ctap1::Error::UnspecifiedPersistentExecutionError,
     ctap1::Error::MemoryFailure,
+    ctap1::Error::WrongLength,
     ctap1::Error::ClaNotSupported,
+    ctap1::Error::LogicalChannelNotSupported,
+    ctap1::Error::SecureMessagingNotSupported,
+    ctap1::Error::LastCommandOfChainExpected,
+    ctap1::Error::CommandChainingNotSupported,
     ctap1::Error::CommandNotAllowed,
+    ctap1::Error::CommandIncompatibleFileStructure,
+    ctap1::Error::SecurityStatusNotSatisfied,
     ctap1::Error::OperationBlocked,
+    ctap1::Error::ReferenceDataNotUsable,
+    ctap1::Error::ConditionsOfUseNotSatisfied,
+    ctap1::Error::CommandNotAllowedNoEf,
+    ctap1::Error::ExectedSecureMessagingDataObjectsMissing,
+    ctap1::Error::IncorrectSecureMessagingDataObjects,
     ctap1::Error::WrongParametersNoInfo,
+    ctap1::Error::IncorrectDataParameter,
     ctap1::Error::FunctionNotSupported,
     ctap1::Error::NotFound,
-    ctap1::Error::WrongLeField(7),
+    ctap1::Error::RecordNotFound,
+    ctap1::Error::NotEnoughMemory,
+    ctap1::Error::NcInconsistentWithTlv,
+    ctap1::Error::IncorrectP1OrP2Parameter,
+    ctap1::Error::NcInconsistentWithP1p2,
+    ctap1::Error::KeyReferenceNotFound,
+    ctap1::Error::FileAlreadyExists,
+    ctap1::Error::DfNameAlreadyExists,
+    ctap1::Error::WrongParameters,
     ctap1::Error::InstructionNotSupportedOrInvalid,
     ctap1::Error::ClassNotSupported,
+    ctap1::Error::UnspecifiedCheckingError,
+    ctap1::Error::MoreAvailable(0),
+    ctap1::Error::MoreAvailable(255),
+    ctap1::Error::WarningTriggering(2),
+    ctap1::Error::RemainingRetries(3),
+    ctap1::Error::ErrorTriggering(2),
+    ctap1::Error::WrongLeField(7),
 ];
 
 pub const VERSION_MARKER: [u8; 6] = *b"SIMV_1";
